@@ -1,7 +1,7 @@
 (* Run_C05.v — correspondence: Model_CommitVoteList evaluated on the lists the
    harness put through CommitVoteList.VerifyBlock (and through block proposal /
    import), with the harness's ground truth for every signature. *)
-From Goloop Require Import lib.Bytes Model_Quorum Model_CommitVoteList.
+From Goloop Require Export lib.Bytes Model_Quorum Model_CommitVoteList.
 Open Scope N_scope.
 
 Inductive obs :=
@@ -9,19 +9,44 @@ Inductive obs :=
 | OReject
 | OCrash.
 
+(* key numbers and counts are printed as N numerals and converted here *)
 Inductive case :=
 (* VerifyBlock(block{height,bid}, vals) on a list {round, ps, items} *)
-| CVerify (height round : Z) (bid : bytes) (ps : psid) (vals : option (list nat))
+| CVerify (height round : Z) (bid : bytes) (ps : psid) (vals : option (list N))
           (items : list (Z * gsig)) (o : obs)
 (* the same list carried by a block that is proposed / imported on a fixture chain *)
-| CChain (height round : Z) (bid : bytes) (ps : psid) (vals : list nat)
+| CChain (height round : Z) (bid : bytes) (ps : psid) (vals : list N)
          (items : list (Z * gsig)) (accepted : bool)
 (* enoughVote(voted, voters) *)
-| CEnough (voted voters : nat) (r : bool).
+| CEnough (voted voters : N) (r : bool).
+Arguments CVerify height%Z round%Z bid ps vals items o.
+Arguments CChain height%Z round%Z bid ps vals items accepted.
 
-(* printing helper for the harness: a signature of key k over the message *)
-Definition Sg (k : nat) (h r : Z) (precommit : bool) (bid : bytes) (ps : psid) (ts : Z) : gsig :=
-  Signed k (VoteMsg h r (if precommit then Precommit else Prevote) bid ps ts).
+(* printing helpers for the harness.
+   hx n v: the n-byte big-endian string of v (shifts and masks only, so that
+   vm_compute stays cheap on 256-bit values). *)
+Fixpoint le_sh (n : nat) (v : N) : bytes :=
+  match n with
+  | O => []
+  | S k => N.land v 255 :: le_sh k (N.shiftr v 8)
+  end.
+Definition hx (n : nat) (v : N) : bytes := rev (le_sh n v).
+Arguments hx n%nat v%N.
+
+(* a correct signature of key k over the message (h, r, type, bid, ps, ts) *)
+Definition Sg (k : N) (h r : Z) (precommit : bool) (bid : bytes) (ps : psid) (ts : Z) : gsig :=
+  Signed (N.to_nat k) (VoteMsg h r (if precommit then Precommit else Prevote) bid ps ts).
+Arguments Sg k%N h%Z r%Z precommit bid ps ts%Z.
+
+(* an item: carried timestamp and signature *)
+Definition It (ts : Z) (s : gsig) : Z * gsig := (ts, s).
+Arguments It ts%Z s.
+
+(* the usual item: key k's precommit signature over (h, r, bid, ps) and the
+   very timestamp the item carries *)
+Definition Ok (h r : Z) (bid : bytes) (ps : psid) (k : N) (ts : Z) : Z * gsig :=
+  (ts, Sg k h r true bid ps ts).
+Arguments Ok h%Z r%Z bid ps k%N ts%Z.
 
 Fixpoint bools_eqb (a b : list bool) : bool :=
   match a, b with
@@ -30,20 +55,22 @@ Fixpoint bools_eqb (a b : list bool) : bool :=
   | _, _ => false
   end.
 
+Definition keys (l : list N) : list nat := map N.to_nat l.
+
 Definition check (c : case) : bool :=
   match c with
   | CVerify h r bid ps vals items o =>
-      match gt_verify_block h r bid ps vals items, o with
+      match gt_verify_block h r bid ps (option_map keys vals) items, o with
       | Accept v, OAccept v' => bools_eqb v v'
       | Reject, OReject => true
       | _, _ => false
       end
   | CChain h r bid ps vals items acc =>
-      match gt_verify_block h r bid ps (Some vals) items with
+      match gt_verify_block h r bid ps (Some (keys vals)) items with
       | Accept _ => acc
       | Reject => negb acc
       end
-  | CEnough c n r => Bool.eqb (enough c n) r
+  | CEnough c n r => Bool.eqb (enough (N.to_nat c) (N.to_nat n)) r
   end.
 
 Definition mismatches (l : list case) : list nat := failing check l.
